@@ -278,6 +278,24 @@ class Gen(object):
                 s.add(El("history", {"id": self.new_id("h"), "type": r.choice(["shallow", "deep"])}))
         return s
 
+    def straddling_targets(self, s):
+        r = self.r
+        below = [e for e in s.walk() if e is not s and e.tag in ("state", "parallel", "final")]
+        if not below:
+            return None
+        reg = s
+        while reg.parent is not None and reg.parent.tag != "parallel":
+            reg = reg.parent
+        if reg.parent is None:
+            return None
+        others = [c for c in reg.parent.children if c.tag in ("state", "parallel") and c is not reg]
+        if not others:
+            return None
+        tb = r.choice([e for e in r.choice(others).walk() if e.tag in ("state", "parallel", "final")])
+        ts = [r.choice(below), tb]
+        r.shuffle(ts)
+        return ts
+
     def orthogonal_targets(self):
         """two targets in different regions of one parallel (what Rec. 3.13 allows)"""
         r = self.r
@@ -313,6 +331,12 @@ class Gen(object):
             targets = []
         elif self.f["multitarget"] and y < 0.2 and not (eventless and self.f["par_bias"]):
             targets = self.orthogonal_targets()
+        force_internal = False
+        if targets is None and self.f["multitarget"] and self.f["internal"] and not eventless and r.random() < (0.12 if self.f["par_bias"] else 0.05):
+            # a compound source inside a region: one target below the source, one in a sibling region, in either order
+            # (type="internal" must then behave like an external transition: not every target is a descendant of the source)
+            targets = self.straddling_targets(s)
+            force_internal = targets is not None and r.random() < 0.7
         if targets is None:
             cands = all_targets
             if self.f["par_bias"] and not eventless and r.random() < 0.7:
@@ -337,7 +361,7 @@ class Gen(object):
             targets = [r.choice(cands)]
         if targets:
             at["target"] = " ".join(t.attrs["id"] for t in targets)
-        if self.f["internal"] and targets and r.random() < 0.25:
+        if self.f["internal"] and targets and (force_internal or r.random() < 0.25):
             at["type"] = "internal"
         t = El("transition", at)
         if self.f["cond"] and (r.random() < (0.6 if eventless else 0.25)):
